@@ -377,6 +377,11 @@ def run_exact(tid, rng, kind, method, hrep, d, calls, cbkind, t0, recs, dtype="c
         # can no longer be kept for this object
         return eff == "integrate" and not r["exc"] and not (r["tok"] and r["tq"] == r["q"])
 
+    def dead(exc):
+        # an exception thrown through the Fortran integrator (scipy keeps integrating with garbage after a
+        # Python callback raised; later calls on such an object can burn minutes): stop driving this object
+        return exc == "CpuTimeout" or (bool(exc) and eff == "integrate")
+
     for call in calls:
         if call[0] == "u":
             exc = ""
@@ -386,7 +391,7 @@ def run_exact(tid, rng, kind, method, hrep, d, calls, cbkind, t0, recs, dtype="c
             except Exception as ex:  # noqa
                 exc = type(ex).__name__
             r = step_record("update_to", call[1], exc, None)
-            if exc == "CpuTimeout" or lost(r):
+            if dead(exc) or lost(r):
                 break
         else:
             qs = list(call[1])
@@ -412,7 +417,7 @@ def run_exact(tid, rng, kind, method, hrep, d, calls, cbkind, t0, recs, dtype="c
             for r, y in held:
                 if y is not None:
                     r["yok"], r["y"] = snap_state(y, kind, d, tol)
-            if held and (held[-1][0]["exc"] == "CpuTimeout" or lost(held[-1][0])):
+            if held and (dead(held[-1][0]["exc"]) or lost(held[-1][0])):
                 break
     return evo
 
@@ -551,6 +556,9 @@ def run_float(tid, rng, sysm, p0, kind, method, hrep, calls, cbkind, recs, small
     def lost(r):
         return eff == "integrate" and not r["exc"] and stop_at is None and r["dq_t"] != 0
 
+    def dead(exc):
+        return exc == "CpuTimeout" or (bool(exc) and eff == "integrate")
+
     for call in calls:
         if call[0] == "u":
             exc = ""
@@ -560,7 +568,7 @@ def run_float(tid, rng, sysm, p0, kind, method, hrep, calls, cbkind, recs, small
             except Exception as ex:  # noqa
                 exc = type(ex).__name__
             r = step_record("update_to", call[1], exc, None)
-            if exc == "CpuTimeout" or lost(r):
+            if dead(exc) or lost(r):
                 break
         else:
             held = []
@@ -588,7 +596,7 @@ def run_float(tid, rng, sysm, p0, kind, method, hrep, calls, cbkind, recs, small
                         r["dq_y"] = qdiff(np.asarray(y), r["_pt"], 1e-13)
                     except Exception:  # noqa
                         r["dq_y"] = 999990
-            if held and (held[-1][0]["exc"] == "CpuTimeout" or lost(held[-1][0])):
+            if held and (dead(held[-1][0]["exc"]) or lost(held[-1][0])):
                 break
     for r in recs:
         r.pop("_pt", None)
@@ -766,7 +774,7 @@ def run(ctx):
     phase("replay-judge")
 
     # 3. C->S: random longer histories on the exact domain
-    n_exact = 200 if quick else 2000
+    n_exact = 200 if quick else 3000
     recs2 = []
     combos = [(m, k, h) for m in METHODS for k in KINDS for h in HREPS]
     for i in range(n_exact):
@@ -793,7 +801,7 @@ def run(ctx):
     phase("exact-judge")
 
     # 4. C->S: random Hermitian Hamiltonians, relations against numpy and between methods
-    n_float = 50 if quick else 350
+    n_float = 50 if quick else 500
     recs3 = []
     routes = [("solve", "dense"), ("solve", "sparse"), ("solve", "tuple"), ("integrate", "dense"), ("integrate", "sparse"),
               ("integrate", "linop"), ("integrate", "tuple"), ("expm", "dense"), ("expm", "sparse"), ("expm", "tuple")]
